@@ -60,7 +60,7 @@ Definition rec_check (fuel : nat) (rootname : tname) (rootnode : node) (roott : 
 
 (* exampleBuilder: the shape of the example (which members are written), Error for a missing type.
    processed: how many times each type is being expanded on the current path. *)
-Inductive ex := XLit | XArr (items : list ex) | XObj (members : list ex).
+Inductive ex := XLit | XNull | XArr (items : list ex) | XObj (members : list ex).
 Fixpoint count (t : tname) (l : list tname) : nat := match l with [] => 0 | x :: r => (if N.eqb x t then 1 else 0) + count t r end.
 Section Example.
   Variable roott : table.
@@ -86,12 +86,13 @@ Section Example.
                                 Ok (match x with Some v => v :: xs | None => xs end)
                     end) props;
         Ok (Some (XObj xs))
-      | NRef _ _ names =>
+      | NRef _ nul names =>
         match names with
         | [] => Err 1302
         | _ =>
-          (* the first alternative that is not being expanded twice already (after the fix: commit for recursive choices) *)
-          (fix pick (ns : list tname) : res (option ex) :=
+          (* the first alternative that is not being expanded twice already (after the fix: commit for recursive choices);
+             a nullable reference that has to be left out to end the recursion is written as null *)
+          do x <- (fix pick (ns : list tname) : res (option ex) :=
              match ns with
              | [] => Ok None
              | t :: r =>
@@ -100,7 +101,8 @@ Section Example.
                     | None => Err 1302
                     | Some (Entry rt _) => build f (t :: processing) rt
                     end
-             end) names
+             end) names;
+          Ok (match x with None => if nul then Some XNull else None | Some v => Some v end)
         end
       end
     end.
@@ -111,6 +113,7 @@ Definition key_text : list N := [34; 107; 34]%N.      (* "k": the key's own text
 Fixpoint render (x : ex) : list N :=
   match x with
   | XLit => [49%N]
+  | XNull => [110; 117; 108; 108]%N
   | XArr l => [91%N] ++ (fix go (first : bool) (l : list ex) : list N :=
                            match l with
                            | [] => []
